@@ -476,6 +476,24 @@ func (o *Obligation) SMT(withModel bool, forCVC5 bool) string {
 			strAx = append(strAx, Forall([]*Term{a, b}, Eq(UF("strtail", []string{SStr, SStr}, SStr, a, StrCat(a, b)), b), []*Term{StrCat(a, b)}))
 		}
 	}
+	if _, ok := d.funs["strcat"]; ok {
+		// a concatenation contains a '-' exactly if one of its parts does; a literal, if it is written with one: enough to tell
+		// "<type>-<id>" keys from dash-free literals such as "MAIN" (the distributor's occurrence map)
+		a, b := Bound("a", SStr), Bound("b", SStr)
+		d.funs["hasDash"] = []string{SStr, SBool}
+		hd := func(x *Term) *Term { return UF("hasDash", []string{SStr}, SBool, x) }
+		strAx = append(strAx, Forall([]*Term{a, b}, Eq(hd(StrCat(a, b)), Or(hd(a), hd(b))), []*Term{StrCat(a, b)}))
+		var dl []string
+		for n, srt := range d.consts {
+			if srt == SStr && strings.HasPrefix(n, "str:") {
+				dl = append(dl, n)
+			}
+		}
+		sort.Strings(dl)
+		for _, n := range dl {
+			strAx = append(strAx, Eq(hd(Const(n, SStr)), BoolT(strings.Contains(strings.TrimPrefix(n, "str:"), "-"))))
+		}
+	}
 	if _, ok := d.funs["toBech32"]; ok {
 		// bech32 decoding is the inverse of encoding
 		a := Bound("a", SStr)
